@@ -17,6 +17,10 @@ package mint
 //@ macro samecond(first, sec) = nut11.keysok(sec) && tags.ok(sec.Data.Tags) && deepeq(box(nut11.keysof(first), slice(ptr(btcec.PublicKey))), box(nut11.keysof(sec), slice(ptr(btcec.PublicKey)))) && nsigsof(first) == nsigsof(sec)
 
 //@ macro anysigall(ps) = (exists i :: 0 <= i && i < len(ps) && nut10.ok(ps[i].Secret) && sigall(nut10.parse(ps[i].Secret)))
+// Representation invariant of the keysets (C09): exactly one active keyset, it
+// is in the map under its id with the same keys, every entry is filed under
+// its own id.
+//@ macro kinv(m) = m.activeKeyset != nil && m.keysets != nil && (m.activeKeyset.Id in m.keysets) && m.activeKeyset.Active && m.keysets[m.activeKeyset.Id].Active && m.keysets[m.activeKeyset.Id].Keys == m.activeKeyset.Keys && m.keysets[m.activeKeyset.Id].InputFeePpk == m.activeKeyset.InputFeePpk && m.keysets[m.activeKeyset.Id].Id == m.activeKeyset.Id && (forall id Str :: (id in m.keysets) ==> m.keysets[id].Id == id && (id != m.activeKeyset.Id ==> !m.keysets[id].Active))
 //@ macro minv(m) = m.db != nil && m.lightningClient != nil && m.activeKeyset != nil && m.keysets != nil && m.logger != nil && m.publisher != nil
 
 //@ func (*Mint).TransactionFees
@@ -301,3 +305,19 @@ package mint
 //@   ensures @allsigall [C12] err == nil ==> (forall j :: 0 <= j && j < len(proofs) ==> nut10.ok(proofs[j].Secret) && sigall(nut10.parse(proofs[j].Secret)) && samecond(nut10.parse(proofs[0].Secret), nut10.parse(proofs[j].Secret)))
 //@   ensures @outputs [C12,C13] err == nil ==> hvs.calls == old(hvs.calls) + len(blindedMessages) && hvs.fails == old(hvs.fails)
 //@   ensures @kind [C12,C13] err == nil && len(blindedMessages) > 0 ==> nut10.parse(proofs[0].Secret).Kind == nut10.P2PK || nut10.parse(proofs[0].Secret).Kind == nut10.HTLC
+
+//@ implements (*sqlite.SQLiteDB) (storage.MintDB)
+
+// Rotation (C09, C07): the old keyset is only deactivated (keys, fee and id
+// untouched), the new one is generated from (seed, old index + 1) with the
+// requested fee, stored as the active row with exactly these values.
+//@ func (*Mint).RotateKeyset
+//@   tags C09 C07
+//@   safety C06 C09
+//@   requires minv(m)
+//@   requires kinv(m)
+//@   calls (storage.MintDB).UpdateKeysetActive asserts @deactivateold [C09,C07] keysetId == old(m.activeKeyset.Id) && !active
+//@   calls (storage.MintDB).SaveKeyset asserts @newrow [C09,C07] ks.Active && ks.InputFeePpk == fee && ks.DerivationPathIdx == (old(m.activeKeyset.DerivationPathIdx) + 1) % 4294967296 && ks.Id == m.activeKeyset.Id && ks.Unit == "sat" && ks.Seed == hexenc(db.seed)
+//@   ensures @kinv [C09] err == nil && !(old(m.keysets[m.activeKeyset.Id].Id) == m.activeKeyset.Id) ==> kinv(m)
+//@   ensures @newactive [C09] err == nil ==> m.activeKeyset.InputFeePpk == fee && m.activeKeyset.DerivationPathIdx == (old(m.activeKeyset.DerivationPathIdx) + 1) % 4294967296 && r0 != nil && r0.Id == m.activeKeyset.Id && r0.InputFeePpk == fee && r0.Active
+//@   ensures @oldkept [C09] forall id Str :: old(id in m.keysets) && id != m.activeKeyset.Id ==> (id in m.keysets) && m.keysets[id].Keys == old(m.keysets[id].Keys) && m.keysets[id].InputFeePpk == old(m.keysets[id].InputFeePpk) && m.keysets[id].Id == old(m.keysets[id].Id)
